@@ -92,6 +92,14 @@ CHECKS["C06"] = dict(
          "recomputed from the key with one split, same-seed twins.",
     technique="Lean 4 proof that the scan-with-scatter model equals padding-free block Gauss-Seidel for all schedules + replay of hook-recorded permutations",
     ref="§8 C06", note="JAX PRNG abstract; converse fixed point / contraction not yet theorems (partial).")
+CHECKS["C19"] = dict(
+    text="Theorems for every dimension count and all integer bounds: the listed rows are exactly the integer vectors of the box (membership iff "
+         "in the box), no duplicates, length = product of the dimensions, and the index function maps every listed row to its own row number "
+         "(row-major, non-zero/negative lower bounds and zero-width dimensions included); the index of any vector equals the index of the nearest "
+         "box vector and is always a valid row. Tie: exhaustive comparison of the real create_range_space (space and index of every vector of "
+         "the box enlarged by 2) with the model over dimensions 1-2 x bounds in -3..3, sampled dimensions 3-4.",
+    technique="Lean 4 induction on the dimension list (row-major box, ravel/clip) + exhaustive differential check of the real create_range_space",
+    ref="§8 C19")
 PENDING = {}
 
 
